@@ -1,0 +1,33 @@
+//go:build verif
+
+// Contracts for the deductive verifier in /verif (comment-only file; no code).
+// One specification of what each storage hook event writes or deletes (C20, C22); the bundled back ends each carry
+// the same clauses (hooks/storage/<backend>/zz_verif_contracts.go) and are each proved against them.
+
+package storage
+
+// the record a hook hands to its store, read through the interface value
+// verif:def msgRec(v iface) = unboxas(v, "*storage.Message")
+// verif:def subRec(v iface) = unboxas(v, "*storage.Subscription")
+// verif:def clRec(v iface) = unboxas(v, "*storage.Client")
+// verif:spec fmtID(uint16) string
+// keys of the three key-value back ends (a client id, filter or topic may contain any character; the key formats are what they are).
+// A subscription, retained or in-flight record carries its own key as ID; the redis back end keeps a hash per kind and its keys have no prefix.
+// verif:def ckey(id string) string = "CL_" + id
+// verif:def skey(id string, filter string) string = "SUB_" + id + ":" + filter
+// verif:def rkey(topic string) string = "RET_" + topic
+// verif:def ikey(id string, pid uint16) string = "IFM_" + id + ":" + fmtID(pid)
+// the publish properties a stored message keeps
+// verif:def msgPropsKept(r *Message, pk packets.Packet) bool = r != nil && r.Properties.PayloadFormat == pk.Properties.PayloadFormat && r.Properties.MessageExpiryInterval == pk.Properties.MessageExpiryInterval && r.Properties.ContentType == pk.Properties.ContentType && r.Properties.ResponseTopic == pk.Properties.ResponseTopic && sameBytes(r.Properties.CorrelationData, pk.Properties.CorrelationData) && len(r.Properties.User) == len(pk.Properties.User)
+// verif:def msgPayloadFormatFlagKept(r *Message, pk packets.Packet) bool = r != nil && (r.Properties.PayloadFormatFlag <==> pk.Properties.PayloadFormatFlag)
+// verif:def inflightIdentity(r *Message, cl *mqtt.Client, pk packets.Packet, sent int64) bool = r != nil && r.T == "IFM" && r.Client == cl.ID && r.Origin == pk.Origin && r.PacketID == pk.PacketID && r.Sent == sent && r.Created == pk.Created
+// verif:def msgContent(r *Message, pk packets.Packet) bool = r != nil && r.FixedHeader.Type == pk.FixedHeader.Type && r.FixedHeader.Qos == pk.FixedHeader.Qos && r.FixedHeader.Dup == pk.FixedHeader.Dup && r.FixedHeader.Retain == pk.FixedHeader.Retain && r.TopicName == pk.TopicName && r.Payload == pk.Payload
+// verif:def retainedIdentity(r *Message, cl *mqtt.Client, pk packets.Packet) bool = r != nil && r.T == "RET" && r.Client == cl.ID && r.Origin == pk.Origin && r.Created == pk.Created
+// verif:def subRecord(r *Subscription, cl *mqtt.Client, sub packets.Subscription, code byte) bool = r != nil && r.T == "SUB" && r.Client == cl.ID && r.Qos == code && r.Filter == sub.Filter && r.Identifier == sub.Identifier && r.NoLocal == sub.NoLocal && r.RetainHandling == sub.RetainHandling && r.RetainAsPublished == sub.RetainAsPublished
+// verif:def clientRecord(r *Client, cl *mqtt.Client) bool = r != nil && r.ID == cl.ID && r.T == "CL" && r.Remote == cl.Net.Remote && r.Listener == cl.Net.Listener && r.Username == cl.Properties.Username && r.Clean == cl.Properties.Clean && r.ProtocolVersion == cl.Properties.ProtocolVersion
+// verif:def clientRecordProps(r *Client, cl *mqtt.Client) bool = r != nil && r.Properties.SessionExpiryInterval == cl.Properties.Props.SessionExpiryInterval && r.Properties.ReceiveMaximum == cl.Properties.Props.ReceiveMaximum && r.Properties.TopicAliasMaximum == cl.Properties.Props.TopicAliasMaximum && r.Properties.MaximumPacketSize == cl.Properties.Props.MaximumPacketSize && r.Properties.RequestProblemInfo == cl.Properties.Props.RequestProblemInfo && r.Properties.RequestResponseInfo == cl.Properties.Props.RequestResponseInfo
+// verif:def clientRecordFlags(r *Client, cl *mqtt.Client) bool = r != nil && (r.Properties.SessionExpiryIntervalFlag <==> cl.Properties.Props.SessionExpiryIntervalFlag) && (r.Properties.RequestProblemInfoFlag <==> cl.Properties.Props.RequestProblemInfoFlag)
+// verif:def clientRecordWill(r *Client, cl *mqtt.Client) bool = r != nil && r.Will.TopicName == cl.Properties.Will.TopicName && r.Will.Payload == cl.Properties.Will.Payload && r.Will.Qos == cl.Properties.Will.Qos && r.Will.Retain == cl.Properties.Will.Retain && r.Will.Flag == cl.Properties.Will.Flag && r.Will.WillDelayInterval == cl.Properties.Will.WillDelayInterval
+// ghost: number of writes / deletes handed to the store during a hook call (axiom clauses on setKv / delKv)
+// verif:ghost var nset int
+// verif:ghost var ndel int
